@@ -264,6 +264,10 @@ def run(model: RepoModel, rep, tier: str):
     check_accumulating_loops(model, rep, "C09.R4")
     check_call_site_budget(model, rep, "C09.R6", declare=True)
     check_ceiling_snapshots(model, rep, "C09.R7", declare=True)
+    from ..generic import check_shared_class_state
+    rep.rule("C09.R8", "states, frames and spaces are per instance: a mutable object bound in a class body of the analysis core is a constant table, "
+                       "never written through self (what one frame / state / space records would be visible in all others)", 0)
+    check_shared_class_state(model, rep, "C09.R8", ["common_structs.py"] + sorted(r for r in model.modules if r.startswith("core/")))
 
 
 def check_copy_on_write(model: RepoModel, rep, RID: str, classes) -> int:
